@@ -90,6 +90,12 @@ impl Locator {
 }
 
 // Display for the id stand-ins, so that formatted messages (log!, panic!, unreachable!) that mention them type-check
+// no formatting precondition: these ids can always be printed (vstd's `format!` support asks for `fmt_req`)
+impl vstd::std_specs::fmt::DisplaySpecImpl for Txid { open spec fn fmt_req(&self, f: &std::fmt::Formatter<'_>) -> bool { true } }
+impl vstd::std_specs::fmt::DisplaySpecImpl for BlockHash { open spec fn fmt_req(&self, f: &std::fmt::Formatter<'_>) -> bool { true } }
+impl vstd::std_specs::fmt::DisplaySpecImpl for Locator { open spec fn fmt_req(&self, f: &std::fmt::Formatter<'_>) -> bool { true } }
+impl vstd::std_specs::fmt::DisplaySpecImpl for UUID { open spec fn fmt_req(&self, f: &std::fmt::Formatter<'_>) -> bool { true } }
+impl vstd::std_specs::fmt::DisplaySpecImpl for UserId { open spec fn fmt_req(&self, f: &std::fmt::Formatter<'_>) -> bool { true } }
 impl std::fmt::Display for Txid { #[verifier::external_body] fn fmt(&self, f: &mut std::fmt::Formatter<'_>) -> std::fmt::Result { unimplemented!() } }
 impl std::fmt::Display for BlockHash { #[verifier::external_body] fn fmt(&self, f: &mut std::fmt::Formatter<'_>) -> std::fmt::Result { unimplemented!() } }
 impl std::fmt::Display for Locator { #[verifier::external_body] fn fmt(&self, f: &mut std::fmt::Formatter<'_>) -> std::fmt::Result { unimplemented!() } }
